@@ -562,8 +562,10 @@ void fp12_back_cyc(fp12_t c, const fp12_t a) {
 		fp2_dbl(t1, a[1][0]);
 		fp2_dbl(t1, t1);
 		fp2_copy_sec(t1, a[0][2], f);
-		/* If unity, decompress to unity as well. */
-		f = fp12_cmp_dig(a, 1) == RLC_EQ;
+		/* If unity, whose compressed form has g2 = g3 = g4 = g5 = 0,
+		 * decompress to unity as well. */
+		f = fp2_is_zero(a[0][1]) & fp2_is_zero(a[0][2]) &
+				fp2_is_zero(a[1][0]) & fp2_is_zero(a[1][2]);
 		fp2_set_dig(t2, 1);
 		fp2_copy_sec(t1, t2, f);
 
